@@ -12,7 +12,7 @@ theorem c12_frame (gr : Cfg) (isClient : Bool) (key : Bytes) (hk : key.length = 
     (hcache : s.cache = encodeFrame isClient key opcode so fin data rsv1 ++ tail)
     (hop : opcode < 16) (hlen : data.length < 2 ^ 63)
     (hsz : sizeCheck gr (msgLen s) (infoOf isClient opcode so fin data rsv1) = none)
-    (hv : validFrame gr (infoOf isClient opcode so fin data rsv1).opcode fin rsv1 false false s.expecting = none) :
+    (hv : validFrame gr (infoOf isClient opcode so fin data rsv1).opcode fin rsv1 false false s.k.expecting = none) :
     nextFrame gr s = .frame (encodeFrame isClient key opcode so fin data rsv1).length
       (infoOf isClient opcode so fin data rsv1).opcode data fin rsv1 :=
   nextFrame_encodeFrame gr isClient key hk s opcode so fin data rsv1 tail hcache hop hlen hsz hv
